@@ -308,7 +308,14 @@ pub fn run_c09(out: &mut Out, rng: &mut Rng, thorough: bool) {
           out.violation(&format!("C09:history-panic:{}{}", name, if f1 { ":f1shape" } else { "" }), req, "a BMOC".into(), "panic".into());
           break;
         }
-        Some(m) => { out.rec(&req, &bmoc_line(&m)); views_case(out, &m, &format!("history-{}", name)); cur = m; }
+        Some(m) => {
+          out.rec(&req, &bmoc_line(&m));
+          views_case(out, &m, &format!("history-{}", name));
+          // a malformed result was just reported: do not feed it to the next operator (an operator run on garbage can
+          // allocate without bound and abort the whole harness, losing the report)
+          if wf_raw(m.get_depth_max(), &m.entries).is_err() { break; }
+          cur = m;
+        }
       }
     }
   }
